@@ -373,6 +373,8 @@ pub struct TcpH {
     pub seg_len: usize,
     /// data offset >= 5 and within the segment
     pub wf: bool,
+    /// checksum verifies over the pseudo header
+    pub csum_ok: bool,
 }
 
 #[derive(Clone, Debug)]
@@ -386,6 +388,9 @@ pub struct UdpH {
     pub seg_off: usize,
     pub seg_len: usize,
     pub wf: bool,
+    /// checksum verifies over the pseudo header (a zero field - "no checksum" - counts as valid
+    /// over IPv4 only)
+    pub csum_ok: bool,
 }
 
 #[derive(Clone, Debug)]
@@ -398,6 +403,8 @@ pub struct IcmpH {
     pub rest_len: usize,
     pub seg_off: usize,
     pub seg_len: usize,
+    /// checksum verifies (ICMPv6: over the pseudo header)
+    pub csum_ok: bool,
 }
 
 #[derive(Clone, Debug)]
@@ -528,7 +535,8 @@ pub fn parse(raw: &[u8]) -> Pkt {
             };
             let proto = h.proto;
             p.l3 = L3::V4(h);
-            p.l4 = parse_l4(raw, pay_off, pay_len, proto, false);
+            let (sa, da) = (IpAddr::V4(match &p.l3 { L3::V4(h) => h.src, _ => Ipv4Addr::UNSPECIFIED }), IpAddr::V4(match &p.l3 { L3::V4(h) => h.dst, _ => Ipv4Addr::UNSPECIFIED }));
+            p.l4 = parse_l4(raw, pay_off, pay_len, proto, false, &sa, &da);
         }
         ET_IP6 => {
             if b.len() < 40 {
@@ -561,7 +569,8 @@ pub fn parse(raw: &[u8]) -> Pkt {
             };
             let nh = h.nh;
             p.l3 = L3::V6(h);
-            p.l4 = parse_l4(raw, pay_off, pay_len, nh, true);
+            let (sa, da) = (IpAddr::V6(match &p.l3 { L3::V6(h) => h.src, _ => Ipv6Addr::UNSPECIFIED }), IpAddr::V6(match &p.l3 { L3::V6(h) => h.dst, _ => Ipv6Addr::UNSPECIFIED }));
+            p.l4 = parse_l4(raw, pay_off, pay_len, nh, true, &sa, &da);
         }
         _ => {
             p.l3 = L3::Other;
@@ -570,7 +579,7 @@ pub fn parse(raw: &[u8]) -> Pkt {
     p
 }
 
-fn parse_l4(raw: &[u8], off: usize, len: usize, proto: u8, v6: bool) -> L4 {
+fn parse_l4(raw: &[u8], off: usize, len: usize, proto: u8, v6: bool, sa: &IpAddr, da: &IpAddr) -> L4 {
     let b = &raw[off..off + len];
     match proto {
         P_ICMP if !v6 => {
@@ -585,6 +594,7 @@ fn parse_l4(raw: &[u8], off: usize, len: usize, proto: u8, v6: bool) -> L4 {
                 rest_len: len - 4,
                 seg_off: off,
                 seg_len: len,
+                csum_ok: fold(ones_sum(0, b)) == 0xffff,
             })
         }
         P_ICMP6 if v6 => {
@@ -599,6 +609,7 @@ fn parse_l4(raw: &[u8], off: usize, len: usize, proto: u8, v6: bool) -> L4 {
                 rest_len: len - 4,
                 seg_off: off,
                 seg_len: len,
+                csum_ok: l4_verifies(sa, da, P_ICMP6, b),
             })
         }
         P_TCP => {
@@ -629,6 +640,7 @@ fn parse_l4(raw: &[u8], off: usize, len: usize, proto: u8, v6: bool) -> L4 {
                 seg_off: off,
                 seg_len: len,
                 wf: doff >= 5 && doff as usize * 4 <= len,
+                csum_ok: l4_verifies(sa, da, P_TCP, b),
             })
         }
         P_UDP => {
@@ -646,6 +658,7 @@ fn parse_l4(raw: &[u8], off: usize, len: usize, proto: u8, v6: bool) -> L4 {
                 seg_off: off,
                 seg_len: len,
                 wf: l as usize == len,
+                csum_ok: (be16(b, 6) == 0 && !v6) || l4_verifies(sa, da, P_UDP, b),
             })
         }
         _ => L4::Other,
